@@ -67,19 +67,27 @@ CompactFix(fs) ==
 CompactAll(sh) ==
   /\ tsi' = [tsi EXCEPT ![sh] = CompactFix(@)]
   /\ kind' = "physical" /\ UNCHANGED ops
-  /\ UNCHANGED <<pts, everDropped, gen, sfLive, sfDirty, tagSrc, inmG, inmS, cacheDirty>>
+  /\ UNCHANGED <<pts, everDropped, gen, sfLive, sfDirty, tagSrc, inmG, inmS, cache, spans>>
 
 InRange(r, sh, s) == pts[sh][s] \cap RangeSlots(r, sh) # {}
 DropHits(m, pn, r) == \E sh \in Shards, s \in U : (m = "*" \/ MeasOf(s) = m) /\ Holds(PredByName[pn], s) /\ InRange(r, sh, s)
 
 ArgsCreate   == {<<sh, s, t>> \in Shards \X U \X Slots : t \notin pts[sh][s]}
+(* A delete that would leave a series without points but with a TSM key (a slot-wise DELETE of a series whose    *)
+(* TSM entry spans both slots) is not generated: InfluxQL leaves open whether such a series stays listed, the code *)
+(* keeps it until the TSM file is compacted in the background (wall clock) and, for inmem, the next restart.       *)
+MakesZombie(m, pn, r) ==
+  \E sh \in Shards : \E s \in Stored(sh) :
+     /\ (m = "*" \/ MeasOf(s) = m) /\ Holds(PredByName[pn], s)
+     /\ pts[sh][s] \ RangeSlots(r, sh) = {}
+     /\ \E sp \in spans[sh][s] : ~(sp \subseteq RangeSlots(r, sh))
 ArgsRecreate == {c \in ArgsCreate : c[2] \in everDropped /\ c[2] \notin Live(c[1])}
-ArgsDropAll  == DropMeas \X DropPreds \X Ranges
+ArgsDropAll  == {d \in DropMeas \X DropPreds \X Ranges : ~MakesZombie(d[1], d[2], d[3])}
 ArgsDrop     == {d \in ArgsDropAll : DropHits(d[1], d[2], d[3])}
 ArgsDropM    == {m \in Meas : \E s \in DBLive : MeasOf(s) = m}
 ArgsLog      == {sh \in PhysShards : Head(tsi[sh]).add \cup Head(tsi[sh]).del # {}}
 ArgsCompact  == {sh \in PhysShards : \E l \in 1..MaxLevel : CanCompact(tsi[sh], l)}
-ArgsSnap     == {sh \in Shards : cacheDirty[sh]}
+ArgsSnap     == {sh \in Shards : \E s \in U : cache[sh][s] # {}}
 
 Bag == << "create", "create", "create", "create", "create", "recreate", "recreate",
           "drop", "drop", "drop", "dropany", "dropm",
